@@ -2,6 +2,7 @@
 // line per request on stdout.  A sanitizer report aborts the process; the Python side turns EOF +
 // stderr into an exception, restarts the driver and lets Hypothesis shrink.
 #define DRV_DEFINE_HOOKS
+#include <tuple>
 #include "drv_common.h"
 #include "shape_case.h"
 #include "face_report.h"
@@ -9,6 +10,11 @@
 #include "drv_scenarios.h"
 
 static std::map<uint32_t, std::vector<uint8_t>> g_fonts;   // font store (bytes only; faces are per case)
+
+static const std::vector<uint8_t> *font_of(uint32_t id) {
+    auto it = g_fonts.find(id);
+    return it == g_fonts.end() ? nullptr : &it->second;
+}
 
 static std::string ledger_json(const FaceBox &fb) {
     if (!fb.mf) return "null";
@@ -63,9 +69,28 @@ static std::string cmd_utf(Reader &rd) {
     return "{\"count\":" + std::to_string(n) + ",\"err\":" + std::to_string(eoff) + ",\"errset\":" + std::to_string(ewritten) + ",\"count_noerr\":" + std::to_string(n2) + "}";
 }
 
-static const std::vector<uint8_t> *font_of(uint32_t id) {
-    auto it = g_fonts.find(id);
-    return it == g_fonts.end() ? nullptr : &it->second;
+// Cached faces (src | 0x80): for properties that are not about histories or loading, one face per
+// (font, source, options) is reused across cases, which makes the multi-megabyte shipped fonts affordable.
+struct Cached { std::unique_ptr<Exact> buf; std::unique_ptr<FaceBox> fb; };
+static std::map<std::tuple<uint32_t, int, unsigned>, Cached> g_faces;
+
+static void drop_cached(uint32_t fid) {
+    for (auto it = g_faces.begin(); it != g_faces.end();) if (std::get<0>(it->first) == fid) it = g_faces.erase(it); else ++it;
+}
+
+static gr_face *cached_face(uint32_t fid, int src, unsigned opts) {
+    auto key = std::make_tuple(fid, src, opts);
+    auto it = g_faces.find(key);
+    if (it != g_faces.end()) return it->second.fb->face;
+    const std::vector<uint8_t> *font = font_of(fid);
+    if (!font) return nullptr;
+    Cached c;
+    c.buf.reset(new Exact(*font));
+    c.fb.reset(new FaceBox);
+    make_face(*c.fb, c.buf->p, c.buf->n, src, opts);
+    gr_face *f = c.fb->face;
+    g_faces[key] = std::move(c);
+    return f;
 }
 
 static std::string cmd_shape(Reader &rd) {
@@ -75,6 +100,13 @@ static std::string cmd_shape(Reader &rd) {
     ShapeParams sp = read_shape_params(rd);
     const std::vector<uint8_t> *font = font_of(fid);
     if (rd.bad || !font) return "{\"error\":\"bad shape request\"}";
+    if (src & 0x80) {
+        gr_face *face = cached_face(fid, src & 0x7f, opts);
+        if (!face) return "{\"face\":0}";
+        ShapeResult r;
+        run_shape(face, sp, r);
+        return "{\"face\":1," + shape_json(r) + "}";
+    }
     Exact fbuf(*font);
     std::string out;
     {
@@ -136,12 +168,12 @@ int main(int argc, char **argv) {
         std::string out;
         switch (rd.u8()) {
         case 'P': { uint32_t id = rd.u32(); g_fonts[id] = rd.bytes(); out = rd.bad ? "{\"error\":\"bad put\"}" : "{\"ok\":1}"; break; }
-        case 'X': { uint32_t id = rd.u32(); g_fonts.erase(id); out = "{\"ok\":1}"; break; }
+        case 'X': { uint32_t id = rd.u32(); drop_cached(id); g_fonts.erase(id); out = "{\"ok\":1}"; break; }
         case 'T': out = cmd_tag(rd); break;
         case 'U': out = cmd_utf(rd); break;
         case 'S': out = cmd_shape(rd); break;
         case 'R': out = cmd_report(rd); break;
-        case 'Q': return 0;
+        case 'Q': g_faces.clear(); return 0;
         default:  out = dispatch_components(req[0], rd, g_fonts);
                   if (out.empty()) out = dispatch_scenarios(req[0], rd, g_fonts);
                   if (out.empty()) out = "{\"error\":\"unknown command\"}";
